@@ -57,6 +57,11 @@ def check_after_update(job, res, crashed_before):
         return
     best = best_epoch(rows, sc["best_is_train"])
     files = state_files(fs, sc)
+    if not crashed_before:
+        stray = set(fs.files) - files - {posixpath.normpath(sc["csv"])}
+        if stray:
+            res.violate("update.stray-files", f"after update {last} files outside the state directory were created: {sorted(stray)[:3]}")
+            return
     unique = fmt_has_epoch(sc["params"]["saved_model_fmt"]) and fmt_has_epoch(sc["params"]["saved_optimizer_fmt"])
     if sc["params"]["keep_last_and_best_only"]:
         want = set(paths_for(sc, last)) | (set(paths_for(sc, best)) if best else set())
@@ -151,6 +156,12 @@ def check_recovery(job, res, twin_rows, ctx):
                 )
                 return False
             if which == "both":
+                ref_groups = ts.make_model_and_optimizer(sc)[1].state_dict()["param_groups"]
+                got_groups = o.state_dict()["param_groups"]
+                strip = lambda gs: [{k: v for k, v in g.items() if k != "lr"} for g in gs]  # noqa
+                if strip(ref_groups) != strip(got_groups):
+                    res.violate("recover.hyperparameters", f"{role} epoch {epoch}: optimizer hyper-parameters in the checkpoint differ from those that were saved: {strip(got_groups)}", role=role, **ctx)
+                    return False
                 want_lr = float(twin_rows[epoch - 1]["lr"])
                 lr = o.param_groups[0]["lr"]
                 if abs(lr - want_lr) > 1e-3 * max(abs(lr), abs(want_lr)):
